@@ -181,13 +181,14 @@ class Pit(Field):
         Returns:
            np.array: pit values with randomization
         """
+        # Use a private generator with a fixed seed so that the same data always
+        # give the same randomized values, and do not alter the input array
+        rng = np.random.RandomState(1)
         if x0 is not None:
-            factor = np.random.rand(*obs.shape) * (obs == x0) + (obs != x0)
-            pit *= factor
+            factor = rng.rand(*obs.shape) * (obs == x0) + (obs != x0)
+            pit = pit * factor
         if x1 is not None:
             # Same for the upper discrete mass
-            factor = np.random.rand(*obs.shape) * (obs == x1) + (obs != x1)
-            pit = 1 - pit
-            pit *= factor
-            pit = 1 - pit
+            factor = rng.rand(*obs.shape) * (obs == x1) + (obs != x1)
+            pit = 1 - (1 - pit) * factor
         return pit
